@@ -142,3 +142,117 @@ def _po_post(a, ret, st):
 
 
 po.ensures("prec", _po_post)
+
+
+# ---- _W0_step: the running fitted values keep tracking the per-sample intercepts.  With I(c) = the recorded rows of sample c (data-structure
+# invariant of cline_idxs, stated as the precondition), after the block   Mu[i] - W0[cline[i]]   is what it was before, for EVERY row i:
+# the cache moves by exactly the change of the row's own intercept.
+from pyvc.lib.maps import TIdxFamily
+T_w0 = TObj(IMPL, fields={"y": TSeq(TReal), "cline": TSeq(TInt), "dd1": TSeq(TInt), "dd2": TSeq(TInt), "n_clines": TInt, "cline_idxs": TIdxFamily("cline"),
+                          "Mu": TArr(Real), "W0": TArr(Real), "prec": TReal, "tau0": TReal})
+w0 = contract(IMPL + "._W0_step@cache", params=[("self", T_w0)])
+
+
+def _rows_by_sample(o):
+    """cline_idxs[c] lists, without repetition, exactly the rows whose sample is c"""
+    fam, cl, n = o["cline_idxs"], o["cline"].seq if hasattr(o["cline"], "seq") else o["cline"], None
+    n = cl.length
+    c, k, k2, i_ = z3.Ints("c!rb k!rb k2!rb i!rb")
+    pos = z3.Function("row_pos_in_its_sample_list", Int, Int)
+    e = lambda cc, kk: z3.Select(fam.arr(cc), kk)  # noqa
+    return [z3.ForAll([c, k], z3.Implies(z3.And(k >= 0, k < fam.len(c)), z3.And(e(c, k) >= 0, e(c, k) < n, z3.Select(cl.cols, e(c, k)) == c)), patterns=[e(c, k)]),
+            z3.ForAll([c, k, k2], z3.Implies(z3.And(k >= 0, k < k2, k2 < fam.len(c)), e(c, k) != e(c, k2)), patterns=[z3.MultiPattern(e(c, k), e(c, k2))]),
+            z3.ForAll([i_], z3.Implies(z3.And(i_ >= 0, i_ < n), z3.And(z3.Select(cl.cols, i_) >= 0, z3.Select(cl.cols, i_) < o["n_clines"], pos(i_) >= 0,
+                                                                     pos(i_) < fam.len(z3.Select(cl.cols, i_)), e(z3.Select(cl.cols, i_), pos(i_)) == i_)),
+                      patterns=[z3.Select(cl.cols, i_)])]
+
+
+w0.requires(lambda a: _rows_by_sample(a.self.fields) + [a.self.fields["Mu"].shape[0] == a.self.fields["y"].seq.length, a.self.fields["cline"].seq.length == a.self.fields["y"].seq.length,
+                                                        a.self.fields["dd1"].seq.length == a.self.fields["y"].seq.length, a.self.fields["dd2"].seq.length == a.self.fields["y"].seq.length,
+                                                        a.self.fields["W0"].shape[0] == a.self.fields["n_clines"], a.self.fields["n_clines"] >= 0,
+                                                        a.self.fields["prec"] > 0, a.self.fields["tau0"] > 0])
+
+
+def _seq(x):
+    return x.seq if hasattr(x, "seq") else x
+
+
+def _tracks(o, old_Mu, old_W0, cl, n):
+    cl = _seq(cl)
+    i_ = z3.Int("i!tr")
+    ci = z3.Select(cl.cols, i_)
+    return z3.ForAll([i_], z3.Implies(z3.And(i_ >= 0, i_ < n), z3.Select(o["Mu"].data, i_) - z3.Select(o["W0"].data, ci) == z3.Select(old_Mu.data, i_) - z3.Select(old_W0.data, ci)),
+                     patterns=[z3.Select(o["Mu"].data, i_)])
+
+
+w0.ensures("cache", lambda a, ret, st: [
+    ("fitted_values_move_with_the_rows_own_intercept", _tracks(a.self.fields, a.old.self.Mu, a.old.self.W0, a.old.self.cline, a.old.self.y.length)),
+    ("shapes_kept", z3.And(a.self.fields["Mu"].shape[0] == a.old.self.Mu.shape[0], a.self.fields["W0"].shape[0] == a.old.self.W0.shape[0]))])
+w0.loop("for#0", invariant=lambda v: [
+    ("shapes_kept", z3.And(v.self.fields["Mu"].shape[0] == v.old.old.self.Mu.shape[0], v.self.fields["W0"].shape[0] == v.old.old.self.W0.shape[0])),
+    ("tracks_so_far", _tracks(v.self.fields, v.old.old.self.Mu, v.old.old.self.W0, v.old.old.self.cline, v.old.old.self.y.length)),
+    ("later_intercepts_untouched", z3.ForAll([z3.Int("c!li")], z3.Implies(z3.And(z3.Int("c!li") >= v.it, z3.Int("c!li") < v.old.old.self.n_clines),
+                                                                          z3.Select(v.self.fields["W0"].data, z3.Int("c!li")) == z3.Select(v.old.old.self.W0.data, z3.Int("c!li"))),
+                                             patterns=[z3.Select(v.self.fields["W0"].data, z3.Int("c!li"))]))])
+
+
+# ---- _V0_step: the same for the per-treatment intercepts, which enter a row through BOTH treatment positions.  Precondition (made explicit; the
+# property's datasets satisfy it): no row has the same non-control treatment in both positions - numpy's `Mu[idx] += d` adds d once per distinct
+# index, so such a row would receive one d for two occurrences.
+T_v0 = TObj(IMPL, fields={"y": TSeq(TReal), "cline": TSeq(TInt), "dd1": TSeq(TInt), "dd2": TSeq(TInt), "n_drugdoses": TInt,
+                          "dd1_idxs": TIdxFamily("dd1"), "dd2_idxs": TIdxFamily("dd2"), "Mu": TArr(Real), "V0": TArr(Real), "prec": TReal,
+                          "phi0": TArr(Real), "eta0": TReal})
+v0 = contract(IMPL + "._V0_step@cache", params=[("self", T_v0)])
+
+
+def _rows_by_treatment(o, fam_name, col_name, tag):
+    fam, col = o[fam_name], _seq(o[col_name])
+    n = col.length
+    c, k, k2, i_ = z3.Ints("c!rt k!rt k2!rt i!rt")
+    pos = z3.Function("row_pos_in_its_%s_list" % tag, Int, Int)
+    e = lambda cc, kk: z3.Select(fam.arr(cc), kk)  # noqa
+    return [z3.ForAll([c, k], z3.Implies(z3.And(k >= 0, k < fam.len(c)), z3.And(e(c, k) >= 0, e(c, k) < n, z3.Select(col.cols, e(c, k)) == c)), patterns=[e(c, k)]),
+            z3.ForAll([c, k, k2], z3.Implies(z3.And(k >= 0, k < k2, k2 < fam.len(c)), e(c, k) != e(c, k2)), patterns=[z3.MultiPattern(e(c, k), e(c, k2))]),
+            z3.ForAll([i_], z3.Implies(z3.And(i_ >= 0, i_ < n, z3.Select(col.cols, i_) >= 0), z3.And(z3.Select(col.cols, i_) < o["n_drugdoses"], pos(i_) >= 0,
+                                                                                                pos(i_) < fam.len(z3.Select(col.cols, i_)), e(z3.Select(col.cols, i_), pos(i_)) == i_)),
+                      patterns=[z3.Select(col.cols, i_)]),
+            z3.ForAll([i_], z3.Implies(z3.And(i_ >= 0, i_ < n), z3.Select(col.cols, i_) >= -1), patterns=[z3.Select(col.cols, i_)])]
+
+
+def _v0_req(a):
+    o = a.self.fields
+    n = o["y"].seq.length
+    i_ = z3.Int("i!vr")
+    d1, d2 = o["dd1"].seq, o["dd2"].seq
+    return _rows_by_treatment(o, "dd1_idxs", "dd1", "dd1") + _rows_by_treatment(o, "dd2_idxs", "dd2", "dd2") + [
+        o["Mu"].shape[0] == n, o["cline"].seq.length == n, d1.length == n, d2.length == n, o["V0"].shape[0] == o["n_drugdoses"], o["phi0"].shape[0] == o["n_drugdoses"],
+        o["n_drugdoses"] >= 0, o["prec"] > 0, o["eta0"] > 0,
+        z3.ForAll([i_], z3.Implies(z3.And(i_ >= 0, i_ < o["phi0"].shape[0]), z3.Select(o["phi0"].data, i_) > 0), patterns=[z3.Select(o["phi0"].data, i_)]),
+        ("no_row_combines_a_treatment_with_itself", z3.ForAll([i_], z3.Implies(z3.And(i_ >= 0, i_ < n, z3.Select(d1.cols, i_) >= 0), z3.Select(d1.cols, i_) != z3.Select(d2.cols, i_)),
+                                                              patterns=[z3.Select(d1.cols, i_)]))]
+
+
+v0.requires(_v0_req)
+
+
+def _v0z(V0, t):
+    return z3.If(t >= 0, z3.Select(V0.data, t), z3.RealVal(0))
+
+
+def _tracks2(o, old_Mu, old_V0, d1, d2, n):
+    d1, d2 = _seq(d1), _seq(d2)
+    i_ = z3.Int("i!t2")
+    a1, a2 = z3.Select(d1.cols, i_), z3.Select(d2.cols, i_)
+    return z3.ForAll([i_], z3.Implies(z3.And(i_ >= 0, i_ < n), z3.Select(o["Mu"].data, i_) - _v0z(o["V0"], a1) - _v0z(o["V0"], a2) ==
+                                      z3.Select(old_Mu.data, i_) - _v0z(old_V0, a1) - _v0z(old_V0, a2)), patterns=[z3.Select(o["Mu"].data, i_)])
+
+
+v0.ensures("cache", lambda a, ret, st: [
+    ("fitted_values_move_with_the_rows_own_treatment_intercepts", _tracks2(a.self.fields, a.old.self.Mu, a.old.self.V0, a.old.self.dd1, a.old.self.dd2, a.old.self.y.length)),
+    ("shapes_kept", z3.And(a.self.fields["Mu"].shape[0] == a.old.self.Mu.shape[0], a.self.fields["V0"].shape[0] == a.old.self.V0.shape[0]))])
+v0.loop("for#0", invariant=lambda v: [
+    ("shapes_kept", z3.And(v.self.fields["Mu"].shape[0] == v.old.old.self.Mu.shape[0], v.self.fields["V0"].shape[0] == v.old.old.self.V0.shape[0])),
+    ("tracks_so_far", _tracks2(v.self.fields, v.old.old.self.Mu, v.old.old.self.V0, v.old.old.self.dd1, v.old.old.self.dd2, v.old.old.self.y.length)),
+    ("later_intercepts_untouched", z3.ForAll([z3.Int("c!l2")], z3.Implies(z3.And(z3.Int("c!l2") >= v.it, z3.Int("c!l2") < v.old.old.self.n_drugdoses),
+                                                                          z3.Select(v.self.fields["V0"].data, z3.Int("c!l2")) == z3.Select(v.old.old.self.V0.data, z3.Int("c!l2"))),
+                                             patterns=[z3.Select(v.self.fields["V0"].data, z3.Int("c!l2"))]))])
